@@ -1883,6 +1883,12 @@ func (e *CoreExtension) filterNumberFormat(value interface{}, args ...interface{
 		}
 	}
 
+	// A precision beyond what fmt accepts cannot be formatted (and used to make the
+	// zero padding below panic): report it instead
+	if decimals > maxNumberFormatDecimals {
+		return nil, fmt.Errorf("number_format: %d decimals requested, at most %d are supported", decimals, maxNumberFormatDecimals)
+	}
+
 	// Format the number
 	format := "%." + strconv.Itoa(decimals) + "f"
 	str := fmt.Sprintf(format, num)
@@ -1929,6 +1935,9 @@ func (e *CoreExtension) filterNumberFormat(value interface{}, args ...interface{
 
 	return intPart, nil
 }
+
+// maxNumberFormatDecimals bounds the number of decimals number_format produces
+const maxNumberFormatDecimals = 1000
 
 func (e *CoreExtension) filterAbs(value interface{}, args ...interface{}) (interface{}, error) {
 	num, err := toFloat64(value)
